@@ -236,22 +236,36 @@ def shared_mutable_buffers(a, b, la=None, lb=None):
     return [path_str(p) for p, v in (lb if lb is not None else leaves(b)) if id(v.value) in ida and not isinstance(v.value, jax.Array)]
 
 
+def which_leaves(bad_kinds, all_kinds):
+    """stable wording for the set of deviating leaves: all, only the non-Param, only the Param leaves"""
+    if not (set(all_kinds) - set(bad_kinds)) or len(set(all_kinds)) == 1:
+        return "leaves"
+    if "Param" not in bad_kinds:
+        return "non-Param leaves"
+    if set(bad_kinds) == {"Param"}:
+        return "Param leaves"
+    return "leaves"
+
+
 def compare_tree(module, tree, layout, fn, role, lv=None):
     """Every element of every leaf equals the model value of its class - exactly."""
     lut = lut_of(tree)
-    for i, (p, v) in enumerate(lv if lv is not None else leaves(module)):
+    lv = lv if lv is not None else leaves(module)
+    bad = []
+    for i, (p, v) in enumerate(lv):
         a = np.asarray(v.value)
         want = lut[class_map(layout, i, tuple(a.shape))]
         if a.dtype != np.float32:
-            raise Mismatch(f"{fn}: {role} {kind_of(v)} leaf changes dtype | {path_str(p)}: {a.dtype}, was float32")
+            raise Mismatch(f"{fn}: {role} leaf changes dtype | {kind_of(v)} {path_str(p)}: {a.dtype}, was float32")
         if not np.array_equal(a, want):
             j = int(np.flatnonzero(a.reshape(-1) != want.reshape(-1))[0])
-            raise Mismatch(
-                f"{fn}: {role} {kind_of(v)} leaf differs from the model | {path_str(p)}[{j}] = {float(a.reshape(-1)[j])!r}, model {float(want.reshape(-1)[j])!r}",
-                leaf=path_str(p),
-                got=a.reshape(-1)[:8].tolist(),
-                want=want.reshape(-1)[:8].tolist(),
-            )
+            bad.append((kind_of(v), f"{path_str(p)}[{j}] = {float(a.reshape(-1)[j])!r}, model {float(want.reshape(-1)[j])!r}"))
+    if bad:
+        kinds = sorted({k for k, _ in bad})
+        raise Mismatch(
+            f"{fn}: {role} {which_leaves(kinds, [kind_of(v) for _, v in lv])} differ from the model | kinds {kinds}, {len(bad)} of {len(lv)} leaves, first: {bad[0][1]}",
+            leaves=[b[1] for b in bad[:6]],
+        )
 
 
 # ------------------------------------------------------------- the real pair
@@ -422,14 +436,16 @@ def check_soft_tol(kind, layout, online, target, pre_on, pre_tg, tau_q, want_tre
     (then the expected value is TLC's, and the snapshot operands are the lattice values)."""
     fn = FN["Soft"]
     n = 0
-    for i, (p, v) in enumerate(leaves(target)):
+    bad = []
+    lv = leaves(target)
+    cache = {}
+    for i, (p, v) in enumerate(lv):
         a = np.asarray(v.value)
         ps = path_str(p)
         o, t = pre_on[ps].reshape(-1), pre_tg[ps].reshape(-1)
         if a.dtype != np.float32 or a.shape != pre_tg[ps].shape:
-            raise Mismatch(f"{fn}: target {kind_of(v)} leaf changes dtype/shape | {kind} {ps}")
-        cm = class_map(layout, i, a.shape).reshape(-1)
-        cache = {}
+            raise Mismatch(f"{fn}: target leaf changes dtype/shape | {kind} {kind_of(v)} {ps}")
+        cm = class_map(layout, i, tuple(a.shape)).reshape(-1)
         for j, x in enumerate(a.reshape(-1)):
             key = (float(o[j]), float(t[j]))
             if key not in cache:
@@ -439,11 +455,15 @@ def check_soft_tol(kind, layout, online, target, pre_on, pre_tg, tau_q, want_tre
                 raise tlc.MachineryError(f"TLC's value {want_tree[cm[j]]} differs from the harness' operands ({ex})")
             n += 1
             if not np.isfinite(x) or abs(Fraction(float(x)) - ex) > bound:
-                raise Mismatch(
-                    f"{fn}: target {kind_of(v)} leaf outside the rounding bound of tau*online+(1-tau)*target | {kind} {ps}[{j}] = {float(x)!r}, exact {float(ex)!r}, bound {float(bound):.3e}, tau {float(tau_q)}",
-                    leaf=ps,
-                    tau=str(tau_q),
-                )
+                bad.append((kind_of(v), f"{ps}[{j}] = {float(x)!r}, exact {float(ex)!r}, bound {float(bound):.3e}"))
+                break
+    if bad:
+        kinds = sorted({k for k, _ in bad})
+        raise Mismatch(
+            f"{fn}: target {which_leaves(kinds, [kind_of(v) for _, v in lv])} outside the rounding bound of tau*online+(1-tau)*target | {kind}, tau {float(tau_q)}, kinds {kinds}, first: {bad[0][1]}",
+            leaves=[b[1] for b in bad[:6]],
+            tau=str(tau_q),
+        )
     if not same_snapshot(snapshot(online), pre_on):
         raise Mismatch(f"{fn}: online network changed | {kind}")
     return n
